@@ -72,6 +72,9 @@ func main() {
 				w.close()
 			}
 		}
+		for k, v := range gridHits {
+			gridStats[k+"Solved"] = [2]int{v, v}
+		}
 		if len(gridStats) > 0 {
 			b, _ := json.Marshal(gridStats)
 			os.WriteFile(filepath.Join(*out, "grids.json"), b, 0o644)
